@@ -179,13 +179,10 @@ def hasSignGuard (s : CtorSpec) (p : String) : Bool :=
 def C19_negative_table_statement : Prop :=
   ∀ s ∈ ctorSpecs, ∀ p ∈ s.params, p.1 ∈ namedParams → hasSignGuard s p.1 = true
 
-/-- **finding.**  `periodic_current_source` takes `w` and `G` and guards neither. -/
-theorem C19_negative_table_counterexample : ¬ C19_negative_table_statement := by
+/-- **C19 (negative, table).**  (Until fix 286e6a4 `periodic_current_source` guarded neither `w`
+nor `G`.) -/
+theorem C19_negative_table : C19_negative_table_statement := by
   unfold C19_negative_table_statement; decide
-
-theorem C19_negative_table_partial :
-    ∀ s ∈ ctorSpecs, s.fn ≠ "periodic_current_source" → ∀ p ∈ s.params, p.1 ∈ namedParams → hasSignGuard s p.1 = true := by
-  decide
 
 /-- the only guards in the module are sign guards `< 0` raising `ValueError` -/
 theorem C19_guards_are_sign_guards :
@@ -193,9 +190,9 @@ theorem C19_guards_are_sign_guards :
 
 /-- **C19 (negative).**  A constructor call whose arguments bind, and in which some guard
 `if p <cmp> bound: raise` is met by the value of `p`, raises — whatever the other arguments,
-the identifier and the terminals are.  (With `C19_negative_table_partial`: a negative
+the identifier and the terminals are.  (With `C19_negative_table`: a negative
 resistance, conductance, capacitance, inductance, frequency, rated power or rated voltage is
-rejected by every constructor except `periodic_current_source`.) -/
+rejected by every constructor.) -/
 theorem C19_negative (s : CtorSpec) (id : String) (nodes : List String) (args env : List (String × Val))
     (henv : bindParams s.params args = .ok env) (g : Guard) (hg : g ∈ s.guards) (q : Rat)
     (hq : env.lookup g.param = some (.num q)) (hfire : g.cmp.holds q g.bound = true) :
@@ -358,24 +355,77 @@ theorem C19_unknown_wave (waves : List String) (name : String) (h : name ∉ wav
     periodicFunction waves name = .error (.other "UnknownWavetype") := by
   simp [periodicFunction, h]
 
+/-- keyword binding hands an argument that is present to the parameter of that name -/
+theorem bindParams_lookup (params : List (String × PTy × Option Val)) (args env : List (String × Val))
+    (h : bindParams params args = .ok env) (p : String × PTy × Option Val) (hp : p ∈ params) (v : Val)
+    (hv : args.lookup p.1 = some v) : env.lookup p.1 = some v := by
+  unfold bindParams at h
+  split at h
+  · cases h
+  · clear * - h hp hv
+    induction params generalizing env with
+    | nil => cases hp
+    | cons x l ih =>
+      rw [List.mapM_cons] at h
+      obtain ⟨y, hy, h⟩ := bind_eq_ok.mp h
+      obtain ⟨ys, hys, h⟩ := bind_eq_ok.mp h
+      simp only [pure, Except.pure, Except.ok.injEq] at h
+      subst h
+      by_cases hx : x.1 = p.1
+      · have : y = (x.1, v) := by
+          rw [hx] at hy ⊢
+          simp only [hv, Except.ok.injEq] at hy
+          exact hy.symm
+        subst this
+        simp [List.lookup, hx]
+      · have hyk : y.1 = x.1 := by
+          split at hy
+          · simp only [Except.ok.injEq] at hy; rw [← hy]
+          · split at hy
+            · simp only [Except.ok.injEq] at hy; rw [← hy]
+            · cases hy
+        have hne : ¬ (p.1 == y.1) = true := by
+          rw [hyk]; intro he; exact hx (beq_iff_eq.mp he).symm
+        rcases List.mem_cons.mp hp with rfl | hp'
+        · exact absurd rfl hx
+        · have := ih ys hp' hys
+          cases y with
+          | mk k val =>
+            simp only at hne
+            simp [List.lookup, hne, this]
+
+/-- every constructor that takes a `wavetype` validates it with `periodic_function` -/
+theorem C19_wave_checked :
+    ∀ s ∈ ctorSpecs, ("wavetype", PTy.str, none) ∈ s.params → ("wavetype", Gen.waveTypes) ∈ s.waveChecks := by
+  decide
+
 /-- unknown waveform types are rejected when the component is constructed -/
 def C19_unknown_wave_statement : Prop :=
   ∀ s ∈ ctorSpecs, ∀ (id : String) (nodes : List String) (args : List (String × Val)) (wt : String),
     args.lookup "wavetype" = some (.str wt) → wt ∉ Gen.waveTypes → ("wavetype", PTy.str, none) ∈ s.params →
     ∃ e, s.construct (some id) (some nodes) args = .error e
 
-/-- **finding.**  `periodic_voltage_source(wavetype='nope', …)` is accepted; the error surfaces
-only when the circuit is analysed. -/
-theorem C19_unknown_wave_counterexample : ¬ C19_unknown_wave_statement := by
-  intro h
-  have hs : ∃ s ∈ ctorSpecs, s.fn = "periodic_voltage_source" ∧ ("wavetype", PTy.str, none) ∈ s.params ∧
-      (s.construct (some "V") (some ["1", "0"]) [("wavetype", .str "nope"), ("V", .num 1), ("w", .num 2)]).toOption.isSome = true := by
-    decide +kernel
-  obtain ⟨s, hs, _, hp, hok⟩ := hs
-  obtain ⟨e, he⟩ := h s hs "V" ["1", "0"] [("wavetype", .str "nope"), ("V", .num 1), ("w", .num 2)] "nope" rfl
-    (by decide) hp
-  rw [he] at hok
-  simp [Except.toOption] at hok
+/-- **C19 (unknown waveform, construction).**  (Until fix 5ae07b1 the constructors accepted any
+string and `UnknownWavetype` surfaced only at analysis.) -/
+theorem C19_unknown_wave_construct : C19_unknown_wave_statement := by
+  intro s hs id nodes args wt hwt hnot hp
+  have hwc := C19_wave_checked s hs hp
+  unfold CtorSpec.construct
+  simp only [pure, Except.pure, bind, Except.bind]
+  cases henv : bindParams s.params args with
+  | error e => exact ⟨e, rfl⟩
+  | ok env =>
+    simp only
+    cases hg : s.guards.forM (fun g => g.check env) with
+    | error e => exact ⟨e, rfl⟩
+    | ok u =>
+      simp only
+      have hl := bindParams_lookup s.params args env henv _ hp _ hwt
+      have hfail : waveCheck env ("wavetype", Gen.waveTypes) = .error (.other "UnknownWavetype") := by
+        simp [waveCheck, hl, hnot]
+      obtain ⟨e, he⟩ := forM_error_of_mem (waveCheck env) s.waveChecks _ hwc _ hfail
+      have he' : s.waveChecks.forM (waveCheck env) = .error e := he
+      exact ⟨e, by simp [he']⟩
 
 /-! ## queries for unknown identifiers -/
 
@@ -451,6 +501,7 @@ theorem C19_stored_unaltered :
     obtain ⟨_, h1, h⟩ := bind_eq_ok.mp h
     obtain ⟨env, _, h⟩ := bind_eq_ok.mp h
     obtain ⟨_, _, h⟩ := bind_eq_ok.mp h
+    obtain ⟨_, _, h⟩ := bind_eq_ok.mp h
     obtain ⟨value, hval, h⟩ := bind_eq_ok.mp h
     simp at h
     subst h
@@ -478,7 +529,7 @@ example : ∃ e, Circuit.mk? [⟨"resistor", "R", ["1", "0"], []⟩, ⟨"capacit
 
 /-- hypotheses of `C19_negative`: `resistor(R = -1)` -/
 example : ∃ e, (⟨"resistor", "resistor", none, none, [("R", .real, none)], [⟨"R", .lt, 0, "ValueError"⟩],
-    [("R", .param "R")]⟩ : CtorSpec).construct (some "R1") (some ["1", "0"]) [("R", .num (-1))] = .error e :=
+    [("R", .param "R")], []⟩ : CtorSpec).construct (some "R1") (some ["1", "0"]) [("R", .num (-1))] = .error e :=
   C19_negative _ "R1" ["1", "0"] [("R", .num (-1))] [("R", .num (-1))] (by decide +kernel) ⟨"R", .lt, 0, "ValueError"⟩
     (List.mem_cons_self ..) (-1) rfl (by decide +kernel)
 
